@@ -325,7 +325,7 @@ def c06(ctx):
                 digs, ids, ev = {}, [], []
                 ref_ev = None
                 for si, cuts in enumerate(seg_set(rng, len(data), ctx.quick)):
-                    src = "sock" if si % 3 == 2 else "iter"
+                    src = "tls" if si % 7 == 4 else "sock" if si % 3 == 2 else "iter"
                     obs = drv.run(data, cuts, mode="read", source=src)
                     nruns += 1
                     d = json.dumps(drv.digest(obs), sort_keys=True)
@@ -440,7 +440,7 @@ def real_scale_c06(ctx, traces, meta):
                        [eoh - 4000, eoh + 500], list(range(8000, len(data), 8000))]
         digs, ev = {}, []
         for si, cuts in enumerate(segsets):
-            obs = drv.run(data, cuts, mode="read", source="sock" if si % 2 else "iter")
+            obs = drv.run(data, cuts, mode="read", source="tls" if si % 5 == 3 else "sock" if si % 2 else "iter")
             d = json.dumps(drv.digest(obs), sort_keys=True)
             ev.append({"e": "seg", "dig": digs.setdefault(d, len(digs) + 1)})
         traces.append({"ms": [], "cut": 0, "mode": "read", "ev": ev})
